@@ -9,3 +9,7 @@ package token
 //@   safety C04
 //@   pure
 //@   nothrow
+
+// Package-level state is written only by the package initialisers: nothing is shared
+// mutably between runtimes through globals (C20).
+//@ globals_readonly[C20]
